@@ -41,3 +41,13 @@ def nested(v):
         import ZConfig
         raise ZConfig.DataConversionError(ValueError("inner failure"), "inner-text", (2, 1, "file:///zcv/inner.conf"))
     return v
+
+
+def interrupt(v):
+    """a value datatype during which the process is interrupted: "!kbd" -> KeyboardInterrupt, "!exit" -> SystemExit
+    (neither is an Exception); anything else is returned unchanged"""
+    if "!kbd" in v:
+        raise KeyboardInterrupt()
+    if "!exit" in v:
+        raise SystemExit(3)
+    return v
